@@ -1,8 +1,10 @@
 //! Independent oracles, written from the RFC texts; no code or tables shared with /repo.
 
+pub mod frames;
 pub mod huffman;
 pub mod huffman_table;
 pub mod qpack;
+pub mod settings;
 pub mod varint;
 
 /// Cross-checks of the reference implementations against RFC vectors and against `octets`.
@@ -18,5 +20,6 @@ pub fn selftest() -> i32 {
     check("varint", varint::selftest());
     check("huffman", huffman::selftest());
     check("qpack", qpack::selftest());
+    check("frames", frames::selftest());
     bad
 }
